@@ -152,6 +152,14 @@ func (P *Program) verifyFunc(fn *ssa.Function, fc *FuncContract, mode Mode) *Fun
 	for _, k := range c.optSortKeys(fc.Opts["noframe"]+","+fc.Opts["havoc"], pkg) {
 		fr.modObjs = append(fr.modObjs, modItem{sortKey: k, all: true})
 	}
+	c.panicsWith, c.panicsWithSet = nil, len(fc.PanicsWith) > 0
+	for _, te := range fc.PanicsWith {
+		if t := c.resolveType(te, pkg); t != nil {
+			c.panicsWith = append(c.panicsWith, c.typeTag(t))
+		} else {
+			c.errs = append(c.errs, fmt.Sprintf("%s: panics_with: unknown type %v", res.Func, te))
+		}
+	}
 	c.trustPre = map[string]bool{}
 	for _, pn := range strings.Split(fc.Opts["trustpre"], ",") {
 		if pn = strings.TrimSpace(pn); pn != "" {
